@@ -51,6 +51,8 @@ impl KeyObs for syn::Path {
 }
 
 pub trait ValObs: FromMeta {
+    /// A map-valued entry: a bare word is not a meta list, so the nested map refuses it.
+    const IS_MAP: bool = false;
     const NAME: &'static str;
     fn canon(&self) -> String;
     /// text after the key for a value this type accepts / rejects
@@ -116,8 +118,9 @@ impl ValObs for HashMap<String, u8> {
         ["(x = 1)", "()", "(x = 1, y = 2)"][i % 3].into()
     }
     fn bad(i: usize) -> String {
-        ["(a = 300)", "(x = 300, \"lit\")", "(b = 1, b = 2)", " = 5", "(q = 400, a = 500)", "(x = 1, x = 2)"][i % 6].into()
+        ["(a = 300)", "(x = 300, \"lit\")", "(b = 1, b = 2)", " = 5", "(q = 400, a = 500)", "(x = 1, x = 2)", ""][i % 7].into()
     }
+    const IS_MAP: bool = true;
 }
 
 pub trait MapObs: FromMeta {
@@ -168,6 +171,86 @@ fn observe<M: MapObs>(items: &[NestedMeta]) -> Out {
     }
 }
 
+/// The map converted from a whole item (`None`: the item is absent).
+fn observe_meta<M: MapObs>(m: Option<&syn::Meta>) -> Out {
+    let r = catch(std::panic::AssertUnwindSafe(|| match m {
+        Some(m) => M::from_meta(m).map(Some),
+        None => Ok(M::from_none()),
+    }));
+    match r {
+        Ok(Ok(Some(m))) => Out::Ok(m.entries()),
+        Ok(Ok(None)) => Out::Err { leaves: vec!["<no value>".into()], len: 0 },
+        Ok(Err(e)) => {
+            let len = e.len();
+            Out::Err { leaves: flat(e), len }
+        }
+        Err(p) => Out::Panic(p),
+    }
+}
+
+/// Every form of the whole item: the list form equals the conversion of its items, and hash and
+/// ordered maps agree on every form (a bare word, a value, no item at all).
+pub fn check_forms(inst: &Inst, twin: Option<&Inst>, t: &mut Tally) {
+    let g0 = (inst.good)(0);
+    let b0 = (inst.bad)(0);
+    let forms = [
+        "v".to_string(),
+        "v()".into(),
+        format!("v(a{g0})"),
+        format!("v(a{g0}, b{g0})"),
+        format!("v(a{g0}, a{g0})"),
+        format!("v(a{b0})"),
+        "v(\"lit\")".into(),
+        "v = 5".into(),
+        "v = \"s\"".into(),
+        "v = \"a = 1\"".into(),
+        "v = true".into(),
+        "v = a".into(),
+        "v = [1]".into(),
+        "v = ()".into(),
+    ];
+    let mut all: Vec<(String, Option<syn::Meta>)> = vec![("<absent>".into(), None)];
+    for f in forms {
+        let di: syn::DeriveInput = syn::parse_str(&format!("#[{f}] struct S;")).expect("form");
+        all.push((f, Some(di.attrs[0].meta.clone())));
+    }
+    for (f, m) in all {
+        t.evaluations += 1;
+        let got = (inst.observe_meta)(m.as_ref());
+        let mut bad = |msg: String, t: &mut Tally| {
+            t.violate(Violation {
+                key: format!("C14 form {} `{f}` :: {msg}", inst.name),
+                what: format!("{} <- `{f}`: {msg}", inst.name),
+                case: json!({"inst": inst.name, "form": f}),
+                detail: json!({}),
+            })
+        };
+        if let Out::Panic(p) = &got {
+            bad(format!("panicked: {p}"), t);
+        }
+        if let Some(syn::Meta::List(l)) = &m {
+            if let Ok(items) = NestedMeta::parse_meta_list(l.tokens.clone()) {
+                let direct = (inst.observe)(&items);
+                if direct != got {
+                    bad(format!("as a whole item {got:?}, its items alone {direct:?}"), t);
+                }
+                t.hit("form_list_vs_items");
+            }
+        } else if matches!(got, Out::Ok(_)) {
+            // only a meta list is converted into a map
+            bad(format!("an item that is not a list became the map {got:?}"), t);
+        }
+        if let Some(tw) = twin {
+            let other = (tw.observe_meta)(m.as_ref());
+            if other != got {
+                bad(format!("{} gives {other:?}, {} gives {got:?}", tw.name, inst.name), t);
+            }
+            t.hit("form_hash_btree_compared");
+        }
+    }
+    vrt::spans::reset();
+}
+
 /// Reference model.
 fn model<K: KeyObs, V: ValObs>(items: &[NestedMeta]) -> Out {
     let mut leaves: Vec<String> = vec![];
@@ -178,7 +261,10 @@ fn model<K: KeyObs, V: ValObs>(items: &[NestedMeta]) -> Out {
             NestedMeta::Lit(_) => leaves.push(Error::unsupported_format("expression").to_string()),
             NestedMeta::Meta(inner) => {
                 let path = inner.path();
-                let val = V::from_meta(inner);
+                let val = match inner {
+                    syn::Meta::Path(_) if V::IS_MAP => Err(Error::unsupported_format("word")),
+                    _ => V::from_meta(inner),
+                };
                 // the value's own leaves, located under the key; the path is composed here as text,
                 // not with `Error::at`, so that the location logic is not its own oracle
                 let val_leaves = |e: Error| -> Vec<String> {
@@ -236,6 +322,7 @@ pub struct Inst {
     pub val: &'static str,
     pub observe: fn(&[NestedMeta]) -> Out,
     pub model: fn(&[NestedMeta]) -> Out,
+    pub observe_meta: fn(Option<&syn::Meta>) -> Out,
     pub good: fn(usize) -> String,
     pub bad: fn(usize) -> String,
 }
@@ -249,6 +336,7 @@ macro_rules! inst {
             val: <$val as ValObs>::NAME,
             observe: observe::<$map<$k, $val>>,
             model: model::<$k, $val>,
+            observe_meta: observe_meta::<$map<$k, $val>>,
             good: <$val as ValObs>::good,
             bad: <$val as ValObs>::bad,
         })
@@ -413,7 +501,11 @@ pub fn main(args: &Args) {
         let c = crate::load_case(p);
         let inst = insts.iter().find(|i| i.name == c["inst"].as_str().unwrap()).unwrap();
         let mut t = Tally::default();
-        check_text(inst, twin_of(inst).map(|i| &insts[i]), c["text"].as_str().unwrap(), &mut t);
+        if c.get("form").is_some() {
+            check_forms(inst, twin_of(inst).map(|i| &insts[i]), &mut t);
+        } else {
+            check_text(inst, twin_of(inst).map(|i| &insts[i]), c["text"].as_str().unwrap(), &mut t);
+        }
         for v in &t.violations {
             println!("replay: {}", v.what);
         }
@@ -431,6 +523,7 @@ pub fn main(args: &Args) {
             let mut t = Tally::default();
             let twin = twin_of(inst).map(|i| &insts[i]);
             if first == 0 {
+                check_forms(inst, twin, &mut t);
                 check_text(inst, twin, "", &mut t);
                 t.states += 1;
             }
@@ -535,7 +628,7 @@ pub fn main(args: &Args) {
     rep.set("max_list_len", json!(maxlen));
     rep.set("repetition_patterns", json!(n_patterns));
     rep.rule = format!(
-        "25 map instantiations (Hash/BTree x String/Ident/Path keys x bool,u8,String,Expr,nested map values). (1) every item list of length 0..{maxlen} over 9 symbols (four key slots - a / r#a, b / r#type, a::b / crate::b / a::r#b, ::a / self / super::a, spellings rotating with position - each with a good or bad value, and a literal item rotating through \"lit\", -1, true, 5, -1.5; value spellings rotate with position); (2) every key-repetition pattern (restricted-growth strings) up to length {rgs_len} x every good/bad mask, plus structured lists of length 9..12, 15..17, 31..33, 63..65 and 100 (all keys equal / all distinct / pairs; one bad value at each position). Reference model: literal -> 1 leaf; unconvertible key -> 1 leaf (+ the value's own leaves); repeated key -> 1 duplicate leaf (+ value leaves); value leaves = V::from_meta(item) located under the key; Ok iff no leaf, then entries equal; HashMap and BTreeMap twins compared on every input. states = lists explored; non-trivial = lists the model rejects."
+        "25 map instantiations (Hash/BTree x String/Ident/Path keys x bool,u8,String,Expr,nested map values). (1) every item list of length 0..{maxlen} over 9 symbols (four key slots - a / r#a, b / r#type, a::b / crate::b / a::r#b, ::a / self / super::a, spellings rotating with position - each with a good or bad value, and a literal item rotating through \"lit\", -1, true, 5, -1.5; value spellings rotate with position); (2) every key-repetition pattern (restricted-growth strings) up to length {rgs_len} x every good/bad mask, plus structured lists of length 9..12, 15..17, 31..33, 63..65 and 100 (all keys equal / all distinct / pairs; one bad value at each position). Reference model: literal -> 1 leaf; unconvertible key -> 1 leaf (+ the value's own leaves); repeated key -> 1 duplicate leaf (+ value leaves); value leaves = V::from_meta(item) located under the key; Ok iff no leaf, then entries equal; HashMap and BTreeMap twins compared on every input. (3) every form of the whole item (absent, bare word, `()`, five lists, six `= value` forms) per instantiation: the list form equals the conversion of its items, nothing but a list becomes a map, twins agree; a map-valued entry written as a bare word is refused. states = lists explored; non-trivial = lists the model rejects."
     );
     rep.assumptions = vec!["the element type's own conversion (V::from_meta) defines the per-item value outcome".into(), "String key conversion = path segments joined by `::`".into()];
     rep.tally.samples.push(json!({"inst": "HashMap<String,u8>", "list": "a = 300, b = 11, a = 12, \"lit\"", "expect_leaves": ["value error at a", "Duplicate field `a`", "Unexpected meta-item format `expression`"]}));
